@@ -39,7 +39,9 @@ func (d *decoder) Read(b []byte) (int, error) {
 	if d.err != nil {
 		return 0, d.err
 	}
-	if d.remain == 0 {
+	if d.remain <= 0 {
+		// A negative count can only come from a negative length read from
+		// the wire; the message holds nothing more in that case either.
 		return 0, io.EOF
 	}
 	if len(b) > d.remain {
@@ -59,7 +61,7 @@ func (d *decoder) ReadByte() (byte, error) {
 }
 
 func (d *decoder) done() bool {
-	return d.remain == 0 || d.err != nil
+	return d.remain <= 0 || d.err != nil
 }
 
 func (d *decoder) setCRC(table *crc32.Table) {
@@ -137,6 +139,9 @@ func (d *decoder) discardAll() {
 func (d *decoder) discard(n int) {
 	if n > d.remain {
 		n = d.remain
+	}
+	if n < 0 {
+		return
 	}
 	var err error
 	if r, _ := d.reader.(discarder); r != nil {
